@@ -131,6 +131,14 @@ def run_case(case, want_trace=False):
             net.at(fg["t"], forge, n, fg)
         for er in case.get("errors", []):
             net.at(er["t"], net.inject_error, client, SERVERS[er["server"] % len(SERVERS)])
+        if case.get("token_burn"):
+            # a context that has meanwhile handed out that many other tokens (the history of a long-running client,
+            # fast-forwarded through the allocator's own interface)
+            def burn(n):
+                for _ in range(n):
+                    client.tman.next_token()
+
+            net.at(case["token_burn"][0], burn, case["token_burn"][1])
 
         # --- observation of state around every delivery to the client
         snaps = []
@@ -360,6 +368,8 @@ def _case(draw):
         # the kernel refuses one of the first transmissions (typically a request's very first datagram)
         fates.insert(min(len(fates), draw(st.integers(0, 3))), ["senderr", draw(st.sampled_from([101, 13, 1]))])
     case = {"requests": reqs, "forgeries": forgeries, "errors": errors, "fates": fates, "rng": draw(st.integers(0, 999)), "token0": draw(st.sampled_from([0, 0, 254, 65534, 2**64 - 2]))}
+    if draw(st.integers(0, 3)) == 0:
+        case["token_burn"] = [draw(st.sampled_from([0.0003, 0.4, 0.9, 1.5])), draw(st.sampled_from([255, 256, 65535, 65535, 65536, 65534]))]
     if draw(st.integers(0, 2)) == 0:
         case["shutdown"] = draw(st.sampled_from([0.0005, 0.5, 1.0005, 3.0, 30.0]))
     return case
